@@ -5,7 +5,7 @@ package main
 // it (write errors are explicitly "not fatal"), so every follow-up call must return — with
 // whatever result — and must not panic.
 //
-// Finding F15 (repaired in /repo by ec60d65 and 1dd72ca): when the call was given a per-call
+// Finding F15 (repaired in /repo by 36e26c1 and 03b1a8a): when the call was given a per-call
 // AllowDuplicateNames that differs from the coder's own setting and failed inside an object,
 // the name/namespace stacks were left out of step with the token stack and later calls
 // panicked with index errors.  Those cases carry history=reuse-after-failed-percall-dupnames;
